@@ -1,0 +1,60 @@
+//go:build verif
+
+package webp
+
+// Verification hook for property C11: poison the Scratch-classified fields of every
+// pooled codec object (see internal/verifhook/poison_on.go).
+
+import (
+	"github.com/deepteams/webp/internal/lossless"
+	"github.com/deepteams/webp/internal/lossy"
+	"github.com/deepteams/webp/internal/verifhook"
+)
+
+// VerifPoisonToCap selects whether slice fields are poisoned up to cap() (true, the
+// default) or only up to len() (false; attributes a failure to one field when
+// several fields share a slab).
+func VerifPoisonToCap(b bool) { verifhook.SetPoisonToCap(b) }
+
+// VerifPoisonPools takes, per pooled type, the list of field names the verification
+// model classifies as Scratch (keys: "lossy.VP8Encoder", "lossy.TokenBuffer",
+// "lossy.Decoder", "lossy.parallelState", "lossy.RowWorker", "lossy.importUVWorker",
+// "bitio.BoolWriter", "lossless.Encoder", "lossless.Decoder"), overwrites those fields
+// of all objects currently in the pools with garbage, and reports "pkg.Type.field" →
+// number of objects poisoned, objects per type, and names that are not struct fields.
+func VerifPoisonPools(scratch map[string][]string) (poisoned map[string]int, objects map[string]int, missing []string) {
+	poisoned, objects = map[string]int{}, map[string]int{}
+	ly := map[string][]string{}
+	ll := map[string][]string{}
+	for k, v := range scratch {
+		switch {
+		case len(k) > 6 && k[:6] == "lossy.":
+			ly[k[6:]] = v
+		case len(k) > 6 && k[:6] == "bitio.":
+			ly[k[6:]] = v
+		case len(k) > 9 && k[:9] == "lossless.":
+			ll[k[9:]] = v
+		}
+	}
+	r := lossy.VerifPoisonPools(ly)
+	for k, n := range r.Poisoned {
+		poisoned["lossy."+k] += n
+	}
+	for k, n := range r.Objects {
+		objects["lossy."+k] += n
+	}
+	for _, m := range r.Missing {
+		missing = append(missing, "lossy."+m)
+	}
+	p2, o2, m2 := lossless.VerifPoisonPools(ll)
+	for k, n := range p2 {
+		poisoned["lossless."+k] += n
+	}
+	for k, n := range o2 {
+		objects["lossless."+k] += n
+	}
+	for _, m := range m2 {
+		missing = append(missing, "lossless."+m)
+	}
+	return
+}
